@@ -34,12 +34,17 @@ if not skip:
     out["confirmed"] = bool(out.get("applies") and "passed" in out.get("tests", "") and "failed" not in out.get("tests", "") and out.get("demo_with") == 1 and out.get("demo_without") == 0)
 assert sh("git -C /repo status --porcelain").stdout.strip() == "", "/repo not clean"
 a = sh(f"git -C /repo apply {patch}")
+out["applied_to_repo"] = a.returncode == 0
+if a.returncode != 0:
+    a3 = sh(f"git -C /repo apply --3way {patch}")
+    out["applied_to_repo"] = a3.returncode == 0
+    out["apply_err"] = (a.stderr + a3.stderr)[-300:]
 try:
-    for p in args:
+    for p in args if out["applied_to_repo"] else []:
         t0 = time.time()
         r = subprocess.run(["./check", p, tier], capture_output=True, text=True, cwd="/verif")
         lines = [l for l in r.stdout.split("\n") if l.startswith("VIOLATION") or l.startswith("KNOWN")]
         out[p] = {"exit": r.returncode, "violations": len([l for l in lines if l.startswith("VIOLATION")]), "s": round(time.time() - t0), "first": lines[:2], "tail": r.stdout.strip().split("\n")[-1][:200], "err": r.stderr[-300:] if r.returncode not in (0, 1) else ""}
 finally:
-    sh("git -C /repo checkout -- .")
+    sh("git -C /repo reset -q --hard HEAD")
 print(json.dumps(out, indent=1))
